@@ -30,6 +30,52 @@ def const_mode(body, op):
     return None
 
 
+def _capt_is_id(body, op):
+    """a captured operand (a value or a reference to it) whose type is the system id"""
+    p = mir.op_place(op)
+    if p is None:
+        return False
+    ty = body.local_ty(p["l"]) if not p["p"] else (p["p"][-1].get("ty", "") if isinstance(p["p"][-1], dict) else "")
+    return ty.replace("&", "").strip().endswith("::SystemCommand")
+
+
+def _pair_built_by_map_adapter(prog, rem, L):
+    """`token.iter_unique_entities().map(|entity| Pair{ id, entity })`: the closure returns a two-operand aggregate of its own
+    parameter (the element) and one captured value, and what it captured is the token's id"""
+    drv_arg = rem.blocks[L.driver]["term"]["args"][0]
+    maps = [(b, t) for b, t, fr in rem.iter_calls() if fr and lib.tail(mir.fn_name(fr), 2) == "Iterator::map"
+            and (lib.originates_from_call(rem, drv_arg, b) or any(b2 == b for b2, _ in lib.receiver_chains(rem, drv_arg)))]
+    if len(maps) != 1:
+        return False
+    clo = None
+    for o in origins(rem, maps[0][1]["args"][1]):
+        if o[0] == "agg":
+            clo = rem.blocks[o[1]]["stmts"][o[2]]["rv"]["agg"]
+    if not clo or clo.get("kind") != "closure":
+        return False
+    try:
+        pb = prog.body(clo["closure"])
+    except Exception:
+        return False
+    if pb is None:
+        return False
+    aggs = []
+    for rb in pb.return_blocks():
+        pass
+    for o in origins(pb, {"move": {"l": 0, "p": []}}):
+        if o[0] != "agg":
+            return False
+        aggs.append(pb.blocks[o[1]]["stmts"][o[2]]["rv"]["agg"])
+    if len(aggs) != 1 or len(aggs[0]["ops"]) != 2:
+        return False
+    el = [o_ for o_ in aggs[0]["ops"] if lib.originates_from_arg(pb, o_, 2)]
+    cap = [o_ for o_ in aggs[0]["ops"] if lib.originates_from_arg(pb, o_, 1)]
+    if len(el) != 1 or len(cap) != 1 or el[0] is cap[0] or len(clo["ops"]) != 1:
+        return False
+    os_ = origins(rem, clo["ops"][0])
+    return bool(os_) and all(o[0] == "call" and o[-1] == ".id" for o in os_)
+
+
 def check(ctx):
     ctx.explanation = EXPLANATION
     ctx.not_decided = NOT_DECIDED
@@ -109,7 +155,11 @@ def check(ctx):
     # ---- C16.c data removed iff last trigger removed ----
     try:
         rem = A.method(prog, "EntityReactor", "remove")
-        crd = A.free_fn(prog, "cleanup_reactor_data")
+        # role: the free function that removes the reactor's local-data component (its name is private)
+        crds = [b_ for b_ in prog.bodies if b_.kind == "fn" and not b_.raw.get("impl_self") and any(
+            fr_ and lib.tail(mir.fn_name(fr_), 2) in ("EntityCommands::remove", "EntityWorldMut::remove") and any("EntityWorldLocal" in a_ for a_ in fr_.get("args", []))
+            for _, _, fr_ in b_.iter_calls())]
+        crd = crds[0] if len(crds) == 1 else A.free_fn(prog, "cleanup_reactor_data")
         ctx.touch(rem)
         ctx.touch(crd)
         rv = [b for b, t, fr in rem.iter_calls() if fr and lib.tail(mir.fn_name(fr), 2) == "ReactCommands::revoke"]
@@ -131,8 +181,17 @@ def check(ctx):
             for o in origins(rem, cs[0][1]["args"][1]):
                 if o[0] == "agg":
                     agg = rem.blocks[o[1]]["stmts"][o[2]]["rv"]["agg"]
-            ok = ok and agg is not None and len(agg["ops"]) == 2 and lib.originates_from_call(rem, agg["ops"][1], L.driver) \
-                and all(o[0] == "call" and o[-1] == ".id" for o in origins(rem, agg["ops"][0]))
+            # (a tuple or a private record: one operand is the loop's element, the other the token's id)
+            if ok and agg is None and lib.originates_from_call(rem, cs[0][1]["args"][1], L.driver):
+                # the pair is built by a `.map(|entity| ..)` adapter on the iterated sequence: read the adapter's closure
+                ok = _pair_built_by_map_adapter(prog, rem, L)
+                agg = False
+            elif ok:
+                ok = agg is not None and len(agg["ops"]) == 2
+            if ok and agg:
+                el_ = [o_ for o_ in agg["ops"] if lib.originates_from_call(rem, o_, L.driver)]
+                id_ = [o_ for o_ in agg["ops"] if origins(rem, o_) and all(o[0] == "call" and o[-1] == ".id" for o in origins(rem, o_))]
+                ok = len(el_) == 1 and len(id_) == 1 and el_[0] is not id_[0]
         ctx.check(ok, "C16.c", "EntityReactor::remove:revoke-then-cleanup-per-entity", "%s:%d" % (rem.file, rem.line),
                   "revoke is queued before a clean-up syscall (token.id, entity) for every unique entity of the token",
                   "EntityReactor::remove does not queue the revoke before one clean-up per token entity")
@@ -180,7 +239,13 @@ def check(ctx):
                     if any(o[0] == "arg" and o[1] == 2 for o in both) and any(o[0] == "arg" and o[1] == 1 for o in both):
                         idc.add(b)
                 okp = bool(reqs) and bool(idc) and all(any(rq.get(b) is True for b in idc) for rq in reqs)
-                okp = okp and all(lib.originates_from_arg(crd, c, 1, (".0", ".0")) for c in pred["ops"])
+                # what the predicate captured is the id half of the input (a tuple's `.0`, or the id-typed field of a record)
+                def _id_half(c_):
+                    if lib.originates_from_arg(crd, c_, 1, (".0", ".0")):
+                        return True
+                    os_ = origins(crd, c_)
+                    return bool(os_) and all(o_[0] == "arg" and o_[1] == 1 for o_ in os_) and _capt_is_id(crd, c_)
+                okp = okp and all(_id_half(c) for c in pred["ops"])
             ok = ok and okp
             # removed from the same entity that was looked up
             ro = origins(crd, crd.blocks[rmv[0]]["term"]["args"][0])
